@@ -424,3 +424,62 @@ Proof.
         end.
         exact Hcs.
 Qed.
+
+Lemma exact_linesearch_step_records x0 f dirs s :
+  pwf x0 -> Forall pwf dirs -> state_wf s ->
+  exact_linesearch_step_spec x0 f dirs s
+    (run prog_exact_linesearch_step (mk_args [x0] [f] [] dirs) s).
+Proof.
+  intros Hx0 Hd Hs. unfold exact_linesearch_step_spec, prog_exact_linesearch_step.
+  step_exec.
+  destruct (oracle_leaf f (leafP (pt_ctr s)) (bump 1 0 s)) as [[[g v] x'] s1] eqn:Ho.
+  assert (Hs' : state_wf (bump 1 0 s)) by exact Hs.
+  destruct (oracle_leaf_wf _ _ _ _ _ _ _ Hs' (pND_leaf _) Ho) as (Hg & Hv & Hx' & Hpe).
+  step_exec.
+  match goal with
+  | |- context [exec_loop ?a0 ?d0 [LetC ?c0 ?t0; SetName _ ?nm0; AddConstraint ?fi0 _] dirs (?e0, ?s2)] =>
+      destruct (linesearch_loop a0 d0 2%nat c0 fi0 t0 nm0) with (dirs := dirs) (e := e0) (s := s2)
+        as ([ep' ex' ec'] & cs & He & Hp' & Hx'' & Hcs)
+  end.
+  - discriminate.
+  - reflexivity.
+  - intros vp vx Hvp Hvx. split; [reflexivity|]. intros E rho phi.
+    rewrite compileC_holds by first [assumption | solve [solve_def]].
+    cbn [denoteC denoteX denoteP sdenote]. arith.
+  - cbn [e_p]. wf_env.
+  - cbn [e_x]. wf_env.
+  - exact Hd.
+  - rewrite He. cbn [e_p e_x a_fun nth] in *. 
+    do 2 eexists. split; [|split; [|split; [|split]]].
+    + rewrite (Hp' 1%nat), (Hp' 2%nat), Hx'' by discriminate. upd_red. reflexivity.
+    + intros E rho. rewrite (Hpe E rho). apply evalP_leaf.
+    + reflexivity.
+    + intros E rho phi. holds_den. rewrite (Hpe E rho). den. arith.
+    + upd_red. exact Hcs.
+Qed.
+
+Lemma Forall2_ceq_pinned {A} (m : A -> forall E : ips, (nat -> E) -> (nat -> R) -> Prop) l cs cs' :
+  Forall2 (fun d c => snd c = Equ /\ forall E rho phi, holds rho phi c <-> m d E rho phi) l cs ->
+  Forall2 (fun d c => snd c = Equ /\ forall E rho phi, holds rho phi c <-> m d E rho phi) l cs' ->
+  Forall2 ceq cs cs'.
+Proof.
+  intros H. revert cs'. induction H as [|d c l cs [Hc Hh] Hl IH]; intros cs' H'; inversion H'; subst; constructor.
+  - destruct H1 as [Hc' Hh']. split; [congruence|]. intros E rho phi. rewrite Hh, Hh'. tauto.
+  - apply IH. assumption.
+Qed.
+
+Lemma exact_linesearch_step_exact x0 f dirs s out :
+  pwf x0 -> Forall pwf dirs -> state_wf s -> exact_linesearch_step_spec x0 f dirs s out ->
+  out_eq out (run prog_exact_linesearch_step (mk_args [x0] [f] [] dirs) s).
+Proof.
+  intros Hx0 Hd Hs H. pose proof (exact_linesearch_step_records x0 f dirs s Hx0 Hd Hs) as H'.
+  revert H H'. generalize (run prog_exact_linesearch_step (mk_args [x0] [f] [] dirs) s) as out'.
+  unfold exact_linesearch_step_spec.
+  destruct (oracle_leaf f (leafP (pt_ctr s)) (bump 1 0 s)) as [[[g v] x'] s1].
+  intros out' (c0 & cs & -> & _ & Hc & Hh & Hcs) (c0' & cs' & -> & _ & Hc' & Hh' & Hcs').
+  split; cbn [fst snd].
+  - res_eq.
+  - apply state_eq_add_conss; [apply state_eq_refl|]. constructor.
+    + apply (ceq_pinned _ _ (fun E rho phi => _ = _) (eq_trans Hc (eq_sym Hc')) Hh Hh').
+    + exact (Forall2_ceq_pinned (fun d E rho phi => inner (evalP rho d) (evalP rho g) = 0) _ _ _ Hcs Hcs').
+Qed.
